@@ -67,6 +67,9 @@ def plan(tier, seed):
             shards.append(("cfg", tier, mg, c, 64))
     for c in range(4):
         shards.append(("sched", tier, mags[0], c, 4))
+    for c in range(8):
+        shards.append(("hist", tier, mags[0], c, 8))
+    shards.append(("callers", tier, mags[0]))
     k = seed % len(shards)
     return shards[k:] + shards[:k]
 
@@ -118,6 +121,119 @@ def _run_sched(desc):
         if non >= 2:
             sh.nontrivial += 1
     sh.sample({"kind": "sched", "kernels": ["compute_gv", "compute_geometry"], "threads": [2, 3], "bound": 2}, limit=1)
+    return sh
+
+
+def _run_hist(desc):
+    """histories on ONE columnfile: geometry computed for configuration A, then the parameters (or the peak positions) change to B
+    through each of the public ways, then the geometry is updated again: every column must be that of B (nothing cached from A)"""
+    _, tier, mg, c, nch = desc
+    tr, cf_mod, pbp, par_mod = _mods()
+    sh = Shard()
+    sc, fc, om = peak_table("quick")
+    cfgs = list(configs(mg))
+    names = ("xl", "yl", "zl", "tth", "eta", "ds", "gx", "gy", "gz")
+    tols = {"xl": 1e-8, "yl": 1e-8, "zl": 1e-8, "tth": 1e-9, "eta": 1e-9, "ds": 1e-12, "gx": 1e-12, "gy": 1e-12, "gz": 1e-12}
+    npairs = 256 if tier == "quick" else 2048
+    for q in range(c, npairs, nch):
+        ia = (q * 61 + 7) % len(cfgs)
+        ib = (q * 37 + 4099) % len(cfgs)
+        PA, PB = cfgs[ia][0], cfgs[ib][0]
+        tB = (PB["t_x"] + 11.0, PB["t_y"] - 7.0, PB["t_z"] + 3.0)
+        for variant in ("pars_then_pars", "setparameters_then_translation", "parameters.set_then_plain", "positions_rewritten"):
+            for fast in (True, False):
+                cf = cf_mod.colfile_from_dict({"sc": sc.copy(), "fc": fc.copy(), "omega": om.copy()})
+                cf.updateGeometry(pars=par_mod.parameters(**PA), fast=fast)
+                want_p, want_sc, want_fc = dict(PB), sc, fc
+                if variant == "pars_then_pars":
+                    cf.updateGeometry(pars=par_mod.parameters(**PB), fast=fast)
+                elif variant == "setparameters_then_translation":
+                    cf.setparameters(par_mod.parameters(**PB))
+                    cf.updateGeometry(translation=tB, fast=fast)
+                    want_p = dict(PB, t_x=tB[0], t_y=tB[1], t_z=tB[2])
+                elif variant == "parameters.set_then_plain":
+                    for k_, v in PB.items():
+                        cf.parameters.set(k_, v)
+                    cf.updateGeometry(fast=fast)
+                else:
+                    cf.sc[:] = sc[::-1]
+                    cf.fc[:] = fc[::-1]
+                    cf.updateGeometry(translation=tB, fast=fast)
+                    want_p = dict(PA, t_x=tB[0], t_y=tB[1], t_z=tB[2])
+                    want_sc, want_fc = sc[::-1].copy(), fc[::-1].copy()
+                xyz, tth, eta, ds, g = reference(tr, want_p, want_sc, want_fc, om)
+                want = dict(zip(names, (xyz[0], xyz[1], xyz[2], tth, eta, ds, g[0], g[1], g[2])))
+                case = {"kind": "hist", "mag": mg, "config_a": ia, "config_b": ib, "variant": variant, "fast": fast}
+                for nm in names:
+                    if not cmp(sh, "columnfile.updateGeometry[history:%s,%s]:%s" % (variant, "fast" if fast else "slow", nm), case, cf.getcolumn(nm), want[nm],
+                               tols[nm], circle=(nm == "eta")):
+                        break
+                sh.evaluations += 1
+                sh.nontrivial += 1
+    sh.sample(case, limit=1)
+    sh.outcomes.add("hist")
+    return sh
+
+
+def _run_callers(desc):
+    """two python threads inside the C geometry kernels at the same time (f2py releases the GIL for `threadsafe` kernels): two
+    complete calls with DIFFERENT parameters run as two logical threads on the vrt runtime; all interleavings at the words both
+    touch (within 2 preemptions); each call must return what it returns alone"""
+    _, tier, mg = desc
+    from vt.vrt import VRT
+    from ImageD11 import transform as tr
+    sh = Shard()
+    V = VRT()
+    sc, fc, om = peak_table("quick")
+    n = 6
+    sc, fc, om = sc[:n].copy(), fc[:n].copy(), om[:n].copy()
+    cfgs = list(configs(mg))
+    picks = [(37, 16000), (5000, 121), (9000, 9001), (16383, 0)] if tier == "quick" else [((q * 977) % 16384, (q * 131 + 7000) % 16384) for q in range(24)]
+    for ia, ib in picks:
+        for ka, kb in (("compute_geometry", "compute_geometry"), ("compute_geometry", "compute_gv"), ("compute_gv", "compute_gv")):
+            blocks = []
+            outs = []
+            for idx, kern in ((ia, ka), (ib, kb)):
+                p = cfgs[idx][0]
+                xyz = np.ascontiguousarray(tr.compute_xyz_lab(np.array([sc, fc]), **p).T)
+                t = np.array([p["t_x"], p["t_y"], p["t_z"]])
+                out = np.zeros((n, 6 if kern == "compute_geometry" else 3))
+                omc = om.copy()
+                blocks.append((kern, [xyz, omc, t, out, n], [p["omegasign"], p["wavelength"], p["wedge"], p["chi"]]))
+                outs.append(out)
+            arrays = [a for b in blocks for a in b[1] if isinstance(a, np.ndarray)]
+            V.register(*arrays)
+            # each call alone
+            alone = []
+            for (kern, ints, dbls), out in zip(blocks, outs):
+                out[:] = -1.0
+                V.run(V.kernel(kern, ints, dbls=dbls), 1, [])
+                alone.append(out.copy())
+            A = V.kernel_args(*blocks[0][:1], blocks[0][1], blocks[0][2])
+            B = V.kernel_args(*blocks[1][:1], blocks[1][1], blocks[1][2])
+            call = V.two_callers(A, B)
+
+            def prepare():
+                for o in outs:
+                    o[:] = -1.0
+
+            def observe(ret):
+                return tuple(o.tobytes() for o in outs)
+            ref = tuple(a.tobytes() for a in alone)
+            r = V.explore(prepare, call, observe, 2, 2, max_exec=200000, early_stop=lambda o: o != ref, prune=False)
+            case = {"kind": "callers", "mag": mg, "config_a": ia, "config_b": ib, "kernels": [ka, kb]}
+            for obs, sched in r["outcomes"].items():
+                if obs != ref:
+                    sh.violation("concurrent-callers:%s-and-%s-interfere" % (ka, kb), dict(case, schedule=sched),
+                                 {"conflict_words": r["filter_size"], "what": "a call returned something else than it returns alone"})
+            sh.states += r["nodes"]
+            sh.transitions += r["nodes"] - 1 + r["executions"]
+            sh.count("caller_pair_executions", r["total_executions"])
+            sh.count("caller_pair_conflict_words", r["filter_size"])
+            sh.evaluations += 1
+            sh.nontrivial += 1
+    sh.sample(case, limit=1)
+    sh.outcomes.add("callers")
     return sh
 
 
@@ -256,6 +372,10 @@ def _mods():
 def run_shard(desc):
     if desc[0] == "sched":
         return _run_sched(desc)
+    if desc[0] == "hist":
+        return _run_hist(desc)
+    if desc[0] == "callers":
+        return _run_callers(desc)
     _, tier, mg, c, nch = desc
     mods = _mods()
     sh = Shard()
@@ -301,6 +421,17 @@ def warm():
 
 def replay(case):
     sh = Shard()
+    if case.get("kind") == "hist":
+        for c in range(8):
+            r = _run_hist(("hist", "thorough", case["mag"], c, 8))
+            sh.violations += [v for v in r.violations if all(v["case"][k] == case[k] for k in ("config_a", "config_b", "variant", "fast"))]
+        return (not sh.violations), {"violations": sh.violations[:3]}
+    if case.get("kind") == "callers":
+        r = _run_callers(("callers", "thorough", case["mag"]))
+        return (not r.violations), {"violations": r.violations[:3]}
+    if case.get("kind") == "sched":
+        r = _run_sched(("sched", "quick", case["mag"], 0, 1))
+        return (not r.violations), {"violations": r.violations[:3]}
     sc, fc, om = peak_table(case.get("tier", "quick"))
     check_config(sh, _mods(), case["pars"], sc, fc, om, case, full=True)
     return (not sh.violations), {"violations": sh.violations[:4]}
